@@ -1,4 +1,4 @@
-\* generated by the builder of C02/C08; see MCSearchers.tla for the families
+\* generated with the builder script of C02/C08; families: MCSearchers.tla
 SPECIFICATION Spec
 CONSTANTS
   SegSizes <- Segs21
@@ -7,8 +7,10 @@ CONSTANTS
   ScoreNone = FALSE
   HeapTakeover = 10
   MaxCalls = 1
-  NTerms = 3
-  Queries <- QQ2
+  NTerms = 2
+  Family = "q2"
+  DropK1 = FALSE
+  Queries <- MCQueries
   FirstAdvanceOK <- FirstAdvAlways
 VIEW View
 INVARIANT ResultOK
